@@ -127,7 +127,7 @@ def corpus():
         c = g.malformed(k)
         c["cls"] = "SQLLiteQuery" if k != 4 else "Query"
         out.append(c)
-    return _corpus_files() + out + mr.triples() + mr.fork_witnesses() + mr.corr_witnesses() + mr.insert_select_orders()
+    return _corpus_files() + out + mr.triples() + mr.fork_witnesses() + mr.corr_witnesses() + mr.insert_select_orders() + mr.nested_subquery_values()
 
 
 def gen_cases(rng, tier):
@@ -261,6 +261,9 @@ def construct(spec, calls):
         for _, v in spec["sets"]:
             if v[0] == "t" and v[1][0] == "sub":
                 return "set-expression:subquery"
+        for _, v in spec["sets"]:
+            if v[0] == "t" and '["sub", null]' in json.dumps(v[1]):
+                return "set-expression:nested-subquery"
     if spec.get("where") is not None and hazard(spec["where"]):
         return "where:" + hazard(spec["where"])
     if spec.get("where_item") is not None:
